@@ -1,21 +1,6 @@
 // replay for property C18, harness algorithms::rl::slot_machine::verif_kani_proofs::c18_slot_update_one_step (crate rosomaxa, proof module slot_machine)
 // failed: assertion failed: count == n @ slot_machine_proofs.rs:70
 // run: /verif/check --replay /verif/replays/C18/c18_slot_update_one_step.rs
-/// Test generated for harness `algorithms::rl::slot_machine::verif_kani_proofs::c18_slot_update_one_step` 
-///
-/// Check for `cover`: "above-prior"
-///
-/// # Warning
-///
-/// Concrete playback tests combined with stubs or contracts is highly
-/// experimental, and subject to change.
-///
-/// The original harness has stubs which are not applied to this test.
-/// This may cause a mismatch of non-deterministic values if the stub
-/// creates any non-deterministic value.
-/// The execution path may also differ, which can be used to refine the stub
-/// logic.
-
 #[test]
 fn kani_concrete_playback_c18_slot_update_one_step_8634087076114422118() {
     let concrete_vals: Vec<Vec<u8>> = vec![
@@ -26,21 +11,6 @@ fn kani_concrete_playback_c18_slot_update_one_step_8634087076114422118() {
     ];
     kani::concrete_playback_run(concrete_vals, c18_slot_update_one_step);
 }
-
-/// Test generated for harness `algorithms::rl::slot_machine::verif_kani_proofs::c18_slot_update_one_step` 
-///
-/// Check for `assertion`: "assertion failed: count == n"
-///
-/// # Warning
-///
-/// Concrete playback tests combined with stubs or contracts is highly
-/// experimental, and subject to change.
-///
-/// The original harness has stubs which are not applied to this test.
-/// This may cause a mismatch of non-deterministic values if the stub
-/// creates any non-deterministic value.
-/// The execution path may also differ, which can be used to refine the stub
-/// logic.
 
 #[test]
 fn kani_concrete_playback_c18_slot_update_one_step_11184740451524993841() {
